@@ -30,9 +30,9 @@ type c15Params struct {
 
 func init() {
 	register(&c15{base{
-		id:    "C15",
-		level: lvlExploration,
-		rule: "reference writers produce otherwise valid, fully repairable PAR1/PAR2 archives in which ONE declared file name comes from a corpus of traversal spellings (.., ../x, a/../../x, ./../x, absolute paths into a canary tree, '.', empty, trailing and doubled slashes, backslash variants, embedded NUL, 300-byte names, dot-prefixed names, deep a/b/../../../x forms, Unicode look-alikes for PAR1) and that file is 'missing' while enough recovery data exists to rebuild it; the archive directory sits inside a canary tree (parent with decoy files at every traversal target, sibling directories, an absolute-path target). the hostile name is carried by the file description packet or, for a third of the PAR2 cases, by an optional Unicode Filename packet attached to a benignly named file; Verify and Repair run through the library (snapshot of the whole tree before/after; absolute index path, and bare index name with the archive directory as current directory) and through the built par binary under strace (every successful create/write/unlink/rename/mkdir event). Any event or snapshot difference outside the index file's directory tree (PAR1: outside that directory itself) is a violation. Create mode: par2.Create must refuse inputs outside the index directory. A key is (format, name, position in the set, mode, target pre-exists?)",
+		id:          "C15",
+		level:       lvlExploration,
+		rule:        "reference writers produce otherwise valid, fully repairable PAR1/PAR2 archives in which ONE declared file name comes from a corpus of traversal spellings (.., ../x, a/../../x, ./../x, absolute paths into a canary tree, '.', empty, trailing and doubled slashes, backslash variants, embedded NUL, 300-byte names, dot-prefixed names, deep a/b/../../../x forms, Unicode look-alikes for PAR1) and that file is 'missing' while enough recovery data exists to rebuild it; the archive directory sits inside a canary tree (parent with decoy files at every traversal target, sibling directories, an absolute-path target). the hostile name is carried by the file description packet or, for a third of the PAR2 cases, by an optional Unicode Filename packet attached to a benignly named file; Verify and Repair run through the library (snapshot of the whole tree before/after; absolute index path, and bare index name with the archive directory as current directory) and through the built par binary under strace (every successful create/write/unlink/rename/mkdir event). Any event or snapshot difference outside the index file's directory tree (PAR1: outside that directory itself) is a violation. Create mode: par2.Create must refuse inputs outside the index directory. A key is (format, name, position in the set, mode, target pre-exists?)",
 		assumptions: append([]string{"on Linux a backslash is an ordinary file-name character; names are judged by where the operating system actually resolves them"}, commonAssumptions...),
 		opts:        core.WorkerOpts{CrashIsViolation: true, WallSeconds: 2400},
 	}})
@@ -343,7 +343,9 @@ func (c *c15) runCreate(r *core.R, t *canaryTree, rng *rand.Rand) {
 	for i, files := range outside {
 		idx := filepath.Join(t.arch, fmt.Sprintf("c%d.par2", i))
 		var err error
-		if pi := core.Protect(func() { err = par2.Create(idx, files, par2.CreateOptions{SliceByteCount: 8, NumParityShards: 2, NumGoroutines: 1}) }); pi != nil {
+		if pi := core.Protect(func() {
+			err = par2.Create(idx, files, par2.CreateOptions{SliceByteCount: 8, NumParityShards: 2, NumGoroutines: 1})
+		}); pi != nil {
 			r.Violate(core.CrashSig("par2.Create", pi.Frame, pi.Msg), "Create with outside input panicked: %s", pi.Msg)
 			continue
 		}
